@@ -24,6 +24,10 @@ type C08Case struct {
 	KeyLast bool     `json:"key_last,omitempty"` // key column declared last instead of first
 	Rows1   []C08Row `json:"rows1"`              // written by writer 1 (first few in one transaction)
 	Rows2   []C08Row `json:"rows2"`              // written by writer 2, which never saw writer 1's rows
+	// Older: rows written by writer 2 for keys of Rows1 (by index), with OLDER write times and
+	// other values: after the merge writer 1's later INSERT must win column by column, so a
+	// column it did not mention, or set to NULL, reads NULL although an older value exists
+	Older []C08Row `json:"older,omitempty"`
 	TxnN    int      `json:"txn_n"`
 	DelN    int      `json:"del_n"` // rows of writer 1 deleted before the vacuum
 	NoSteer bool     `json:"no_steer,omitempty"`
@@ -85,6 +89,20 @@ func genC08Case(t *rapid.T) C08Case {
 		if r, ok := row(); ok {
 			c.Rows2 = append(c.Rows2, r)
 		}
+	}
+	nolder := rapid.IntRange(0, 4).Draw(t, "nolder")
+	for i := 0; i < nolder && len(c.Rows1) > 0; i++ {
+		base := c.Rows1[rapid.IntRange(0, len(c.Rows1)-1).Draw(t, "olderkey")]
+		if base.maybeUnstorable() || base.hasEmptyText() {
+			continue
+		}
+		r := C08Row{K: base.K}
+		va, vb := genFidelityVal().Draw(t, "oa"), genFidelityVal().Draw(t, "ob")
+		r.A, r.B = &va, &vb
+		if r.maybeUnstorable() || r.hasEmptyText() {
+			continue
+		}
+		c.Older = append(c.Older, r)
 	}
 	c.TxnN = rapid.IntRange(0, 6).Draw(t, "txn")
 	c.DelN = rapid.IntRange(0, 5).Draw(t, "del")
@@ -162,7 +180,7 @@ func runC08(c C08Case, o *Obs) error {
 	if err := w2.Create(spec2); err != nil {
 		return fmt.Errorf("create w2: %v", err)
 	}
-	wt := int64(0)
+	wt := int64(1000) // writer 1 and the disjoint rows of writer 2; writer 2's "older" rows use 1..999
 	stage := "fresh"
 
 	compare := func(conn *Conn, table, where string) error {
@@ -276,7 +294,24 @@ func runC08(c C08Case, o *Obs) error {
 	if err := compare(w1, t1, "after re-open by another connection"); err != nil {
 		return err
 	}
-	// writer 2 (has not seen writer 1's rows) commits its own rows; writer 1 merges them
+	// writer 2 (has not seen writer 1's rows) first writes older versions of some of writer 1's keys
+	seenOlder := map[string]bool{}
+	for j, r := range c.Older {
+		id := keyClassID(r.K)
+		if seenOlder[id] || j >= 900 {
+			continue
+		}
+		seenOlder[id] = true
+		if err := w2.SetWriteTime(baseTime + int64(j+1)); err != nil {
+			return err
+		}
+		q, args := r.insertSQL(t2)
+		if err := w2.Exec(q, args...); err != nil {
+			return fmt.Errorf("w2 older row %d: INSERT of %v refused: %v", j, r.vals(), err)
+		}
+		o.Class("older-version-of-a-key-on-the-other-writer")
+	}
+	// then commits its own rows; writer 1 merges everything
 	for j, r := range c.Rows2 {
 		where := fmt.Sprintf("w2 row %d", j)
 		err := insert(w2, &t2, spec2, r, false, where)
@@ -332,7 +367,7 @@ var (
 func init() { register("TestC08_Fidelity", runC08) }
 
 func TestC08_Fidelity(t *testing.T) {
-	st := newStats(t, "C08", "TestC08_Fidelity", "tables (entries_per_node 2..4096, key column first or last) filled by two writers with 1-35 rows whose key, a and b are drawn from boundary-seeded generators of every storage class (64-bit edges, +-0, subnormals, +-Inf, NaN, multi-byte/embedded-NUL/long text, blobs of length 0..300, NULL, omitted columns, TEXT that is not valid UTF-8); the same parameters are bound into a native table; (value, typeof) of every cell is compared exactly after commit, after re-open on a new connection, after merging the other writer's version, after delete+vacuum, and from a fresh read-only open; invalid UTF-8 may be refused (table must stay usable) but never altered; non-trivial = a comparison after merge or vacuum on a tree of height>=1")
+	st := newStats(t, "C08", "TestC08_Fidelity", "tables (entries_per_node 2..4096, key column first or last) filled by two writers with 1-35 rows (writer 2, which never sees writer 1's rows, also writes older versions with other values of up to 4 of writer 1's keys, so the merge has to let writer 1's later INSERT win column by column, NULL and unmentioned columns included) whose key, a and b are drawn from boundary-seeded generators of every storage class (64-bit edges, +-0, subnormals, +-Inf, NaN, multi-byte/embedded-NUL/long text, blobs of length 0..300, NULL, omitted columns, TEXT that is not valid UTF-8); the same parameters are bound into a native table; (value, typeof) of every cell is compared exactly after commit, after re-open on a new connection, after merging the other writer's version, after delete+vacuum, and from a fresh read-only open; invalid UTF-8 may be refused (table must stay usable) but never altered; non-trivial = a comparison after merge or vacuum on a tree of height>=1")
 	st.Assume = append(st.Assume, "rows containing an empty TEXT are not written (known finding K1), counted under excluded")
 	checkRapid(t, st, genC08Case, runC08)
 }
